@@ -8,9 +8,9 @@ BASE = "cd /repo && /venv/bin/python -m pytest -ra -q -p no:cacheprovider --time
 
 # id -> (technique, level text, level note, design ref)
 CHECKS = {
- 'C01': ('runtime monitor: matching-validity oracle on every XMAP record, writer row, bus candidate and direct Aligner.align return; resolver trace classifies known mechanisms',
+ 'C01': ('runtime monitor: matching-validity oracle on every XMAP record, writer row, bus candidate, direct Aligner.align return and direct first/second-pass join; resolver trace names the mechanism',
          'the real composed pipeline (M-serial + M-pool sample) and the real Aligner are executed on generated inputs (all modes, non-default parameters, long multi-indel molecules, hostile seed lists); an oracle on independently parsed CMAP text judges every record, writer row, candidate and return value',
-         'trusts the harness CMAP writer/parsers and the M-serial substitution (cross-checked against M-pool); finding resolver-uncompared-neighbours is reported as KNOWN-FINDING by trace mechanism'),
+         'trusts the harness CMAP writer/parsers and the M-serial substitution (callable pickled per task like the pool does; cross-checked against M-pool and, in C09, the CLI); no known finding is listed for C01 any more (the resolver defect was repaired in /repo)'),
  'C02': ('runtime monitor: field oracle on the text of every XMAP record vs independently parsed CMAP text',
          'every record of every file written by end-to-end runs (both strands, second-pass, joined, one-decimal coordinates, large offsets, first label at 0) is recomputed from the CMAP text alone',
          'only records that satisfy C01 are judged; QryLen accepted as last-first or last-first+1; 0.051 tolerance'),
@@ -52,7 +52,7 @@ CHECKS = {
          'tied diagonal keys skipped for the optimality clause; multiplier >= 0'),
  'C15': ('trace monitor on resolveConflicts / checkForConflicts with identity lineage',
          'per resolver call the chain, identity and score of every position, every comparison and the output are recorded during hostile direct drives of the real Aligner and end-to-end runs; clauses (a) contiguous sub-run, (b) no re-scoring, (c) no shared/crossing label, (d) protected pairs kept',
-         'finding resolver-uncompared-neighbours (clause c only) is reported as KNOWN-FINDING by trace mechanism'),
+         'every clause has no known exception any more (the resolver defect was repaired in /repo); mechanisms are still named from the trace'),
  'C16': ('exhaustive small-scope enumeration of vectorise/blur/bin-to-bp; wrappers on find_peaks/getInitialAlignment/selectPeaks end to end',
          '593k vectorise cases, all bit vectors up to 8/12 bits x radius 0-3, bin centres for resolutions 1-11 (+100..1500), random peak lists, and end-to-end recomputation of every primary peak score and of the top-peaksCount selection',
          'bits beyond `end` checked for exactness only; ties between equal scores free'),
